@@ -255,3 +255,51 @@ if __name__ == "__main__":
     roots = [a for a in sys.argv[1:] if not a.startswith("-")]
     for o in r6p(Ctx(roots[0] if roots else None)):
         print(o.status.upper(), o.line()[:400])
+
+
+# ------------------------------------------------------------------------------------------ R6q
+TREE_WALKS = {"modules", "children", "named_modules", "named_children", "parameters", "named_parameters", "buffers", "named_buffers"}
+WRITERS = {"reset_parameters", "copy_", "fill_", "zero_", "normal_", "uniform_", "set_", "requires_grad_"}
+
+
+def r6q(ctx: Ctx, modules: tuple[str, ...] = ("cirkit.backend.torch",)) -> list[Ob]:
+    """R6q -- tensors are (re-)initialised along parameter graphs, not along torch's module tree.
+
+    A ``TorchPointerParameter`` stores its target as an attribute, so ``nn.Module`` registers the
+    *referenced* tensor -- owned by another compiled circuit -- as a child of the pointer.
+    ``.modules()`` / ``.children()`` / ``.parameters()`` therefore cross the pointer boundary that
+    R6p guards: a reset or an initialiser applied to what such a traversal yields re-initialises the
+    operand circuits' tensors (the layer wrapped by an evidence layer holds only pointers to them)
+    every time a derived circuit is compiled.  No loop / comprehension over a module-tree traversal
+    may call a writer (``reset_parameters``, an in-place ``name_``, ``nn.init.*``) on its elements."""
+    out: list[Ob] = []
+    n_fn = 0
+    for f in ctx.repo.iter_functions():
+        if not f.module.name.startswith(modules):
+            continue
+        n_fn += 1
+        for lp in walk_no_nested(f.node):
+            if not isinstance(lp, ast.For):
+                continue
+            walk = None
+            for c in ast.walk(lp.iter):
+                if isinstance(c, ast.Call) and isinstance(c.func, ast.Attribute) and c.func.attr in TREE_WALKS:
+                    walk = c.func.attr
+            if walk is None:
+                continue
+            tgt = {x.id for x in ast.walk(lp.target) if isinstance(x, ast.Name)}
+            bad = None
+            for n in ast.walk(lp):
+                if isinstance(n, ast.Call) and isinstance(n.func, ast.Attribute):
+                    recv_names = {x.id for x in ast.walk(n.func.value) if isinstance(x, ast.Name)}
+                    if (n.func.attr in WRITERS or (n.func.attr.endswith("_") and not n.func.attr.startswith("_"))) and recv_names & tgt:
+                        bad = n
+                if isinstance(n, ast.Call) and (dotted(n.func) or "").startswith(("nn.init.", "torch.nn.init.", "init.")) and any(isinstance(a, ast.Name) and a.id in tgt or any(isinstance(x, ast.Name) and x.id in tgt for x in ast.walk(a)) for a in n.args):
+                    bad = n
+            site = f"{f.module.relpath}:{lp.lineno}"
+            if bad is not None:
+                out.append(viol("R6q", f.qualname, f"tree-walk:{walk}", f"`{unparse(bad)[:60]}` is applied to the elements of `{unparse(lp.iter)[:50]}`: torch's module tree contains the tensors that pointer nodes refer to (other circuits' tensors), so this re-initialises / overwrites the operands of a derived circuit -- e.g. values loaded before an evidence circuit is compiled", site))
+            else:
+                out.append(ok("R6q", f.qualname, f"tree-walk:{walk}", "a module-tree traversal that writes nothing", site))
+    out.append(ok("R6q", "cirkit.backend.torch", "tree-walks", f"{n_fn} functions scanned", "", nontrivial=(n_fn > 0)))
+    return out
